@@ -32,7 +32,7 @@ Extraction "model"
   IPV4_HEADER IPV6_HEADER UDP_HEADER
   c10_step_ok c10_bounded c10_kf2_class c10_closed_pending_class
   c02_write_wakes c02_drop_writer_wakes c02_shutdown_wakes c02_read_wakes c02_parked_ok c02_eof_wakes
-  c02_zero_window_waker c02_timer_ok c02_rto_armed c02_no_silent_stall c02_prompt c02_d2_class c02_d8_class c02_d9_class c02_d14_class
+  c02_zero_window_waker c02_timer_ok c02_timer_ok_g c02_rto_armed c02_no_silent_stall c02_prompt c02_d2_class c02_d8_class c02_d9_class c02_d14_class
   c17_synack_ok c17_fin_after_data_ok c17_fin_after_data_noerr c17_fin_number_step_ok c17_fin_seq_ok c17_peer_fin_ok
   c17_reset_ok c17_reset_trace_ok c03_ready_closed_ok c03_no_hang_ok c03_after_death_ok
   c05_window_ok c05_zero_window_ok c05_rto_single_ok c05_monitor_ok c05_zero_window_strict c05_d16_class
